@@ -3,6 +3,7 @@ package c19
 import (
 	"fmt"
 	"math/rand/v2"
+	"slices"
 	"sort"
 	"strings"
 	"sync"
@@ -32,6 +33,13 @@ type initWatch struct {
 	ch     <-chan struct{}
 	table  int
 	origin string
+	inTxn  string // obtained from this write transaction (dropped if it aborts)
+}
+
+// ownedSlice is a slice the caller made by appending to a PendingInitializers() result: it is the caller's.
+type ownedSlice struct {
+	s, copy []string
+	origin  string
 }
 
 type sim struct {
@@ -46,6 +54,7 @@ type sim struct {
 	committed   []*tmodel
 	doneFns     []map[string]func(statedb.WriteTxn) // per table: name -> done func (committed registrations only)
 	watches     []*initWatch
+	owned       []ownedSlice
 	before      map[*initWatch]bool
 	expectClose map[int]bool // tables that become initialized by the commit in flight
 	nextName    int
@@ -92,20 +101,42 @@ func sameSet(a, b []string) bool {
 }
 
 // check compares Initialized/PendingInitializers of txn with the model of table ti; retains the channel when not initialized.
-func (s *sim) check(what string, txn statedb.ReadTxn, ti int, m *tmodel, retain bool) {
+func (s *sim) check(what string, txn statedb.ReadTxn, ti int, m *tmodel, retain bool, inTxn ...string) {
 	if s.failed {
 		return
 	}
 	s.checks++
+	for _, o := range s.owned {
+		if !slices.Equal(o.s, o.copy) {
+			s.violate("callers-slice-changed", "%s: a slice the caller built by appending to the PendingInitializers() result of %s changed from %v to %v", what, o.origin, o.copy, o.s)
+			return
+		}
+	}
 	ok, ch := s.tabs[ti].Initialized(txn)
 	want := len(m.pending) == 0
 	if ok != want {
 		s.violate("initialized-wrong", "%s: table %d Initialized=%v, model pending=%v", what, ti, ok, m.pending)
 		return
 	}
-	if got := s.tabs[ti].PendingInitializers(txn); !sameSet(got, m.pending) {
+	got := s.tabs[ti].PendingInitializers(txn)
+	if !sameSet(got, m.pending) {
 		s.violate("pending-wrong", "%s: table %d PendingInitializers=%v, model %v", what, ti, got, m.pending)
 		return
+	}
+	taken := false
+	for _, o := range s.owned {
+		// (one caller per returned array: two callers appending to the same result would overwrite each other, which is their business)
+		taken = taken || len(got) > 0 && len(o.s) > 0 && &o.s[0] == &got[0]
+	}
+	if len(got) > 0 && !taken && s.checks%3 == 0 {
+		// the caller extends its result (it does not touch the elements it was given): from here on that slice is the caller's
+		mine := append(got, "caller:"+what)
+		o := ownedSlice{mine, slices.Clone(mine), what}
+		if len(s.owned) < 12 {
+			s.owned = append(s.owned, o)
+		} else {
+			s.owned[s.checks%12] = o
+		}
 	}
 	if ok && !isClosed(ch) {
 		s.violate("channel-open-when-initialized", "%s: table %d is initialized but Initialized() returned an open channel", what, ti)
@@ -117,7 +148,11 @@ func (s *sim) check(what string, txn statedb.ReadTxn, ti int, m *tmodel, retain 
 			return
 		}
 		if retain && len(s.watches) < 24 {
-			s.watches = append(s.watches, &initWatch{ch, ti, what})
+			w := &initWatch{ch: ch, table: ti, origin: what}
+			if len(inTxn) > 0 {
+				w.inTxn = inTxn[0]
+			}
+			s.watches = append(s.watches, w)
 		}
 	}
 }
@@ -264,7 +299,8 @@ func (s *sim) run() {
 				s.logf("%s table %d insert", what, ti)
 				s.tabs[ti].Insert(wtxn, &concw.Row{ID: fmt.Sprint(rng.IntN(4)), V: int64(x)})
 			}
-			s.check(what+" in-txn", wtxn, ti, working[ti], false)
+			// (the channel a write transaction is given is retained too: a registration and its completion may share one transaction)
+			s.check(what+" in-txn", wtxn, ti, working[ti], true, what)
 		}
 		if s.failed {
 			wtxn.Abort()
@@ -273,6 +309,14 @@ func (s *sim) run() {
 		if rng.IntN(100) < 35 {
 			s.logf("%s Abort", what)
 			wtxn.Abort()
+			// channels handed out by the aborted transaction may belong to an initialization round that never existed
+			kept := s.watches[:0]
+			for _, w := range s.watches {
+				if w.inTxn != what || isClosed(w.ch) {
+					kept = append(kept, w)
+				}
+			}
+			s.watches = kept
 			for _, w := range s.watches {
 				if !s.before[w] && isClosed(w.ch) {
 					s.violate("closed-by-abort", "%s: the Initialized() channel of table %d closed although the transaction aborted", what, w.table)
